@@ -305,8 +305,8 @@ fn main() {{}}
 
 
 C4_HINT = """proof {
-    reveal_strlit("\\\\\\\\"); reveal_strlit("\\\\\\""); reveal_strlit("\\\\n"); reveal_strlit("\\\\r");
-    assert("\\\\\\\\"@ =~= lit_bs2()); assert("\\\\\\""@ =~= lit_bsq()); assert("\\\\n"@ =~= lit_bsn()); assert("\\\\r"@ =~= lit_bsr());
+    reveal_strlit("\\\\\\\\"); reveal_strlit("\\\\\\""); reveal_strlit("\\\\n"); reveal_strlit("\\\\r"); reveal_strlit("\\\\0");
+    assert("\\\\\\\\"@ =~= lit_bs2()); assert("\\\\\\""@ =~= lit_bsq()); assert("\\\\n"@ =~= lit_bsn()); assert("\\\\r"@ =~= lit_bsr()); assert("\\\\0"@ =~= lit_bs0());
     lemma_four_replaces_is_esc(arguments@[verif_k - 1]@);
     let sub = verif_args0.subrange(0, verif_k as int);
     assert(sub.drop_last() =~= verif_args0.subrange(0, verif_k - 1));
